@@ -778,3 +778,52 @@ def numerics_input(rng):
     if sims == 2:
         t += "SOLUTION 2\n Na 1\n Cl 1\nEND\n"
     return b(t), kind
+
+
+# ------------------------------------------------------------------------------------------------ errors raised while a sink is mid-record
+
+RUNTIME_ERRORS = ['PUNCH 1 + "x"', 'a$ = 1 + "x"', 'PUNCH TOT("Ca"', 'NEXT j', 'PUNCH MID$(5, 1)', 'x = "s"', 'PUNCH LEN(5)', 'PUNCH arr(99999)', 'PUNCH 1 +', 'GOTO 99998',
+                  'RETURN', 'READ q', 'PUNCH CHR$("A")', 'WEND', 'PUNCH SQRT(', 'DIM z(-3)', 'PUNCH GET(', 'PUNCH CALC_VALUE("nosuch")', 'PUNCH LK_NAMED("nosuch")',
+                  'PUNCH RATE_PK("nosuch")', 'PUNCH EQUI(', 'ON 5 GOTO', 'PUNCH STR_F$(1)', 'PUNCH PAD$("a")', 'PUNCH SYS("aq", 1, 2)']
+CONDITIONS = ["", "", "IF STEP_NO = 2 THEN ", "IF CELL_NO = 2 THEN ", "IF SIM_NO = 2 THEN ", "IF TOTAL_TIME > 0 THEN ", "IF TOT(\"Na\") > 0.5 THEN ", "IF STEP_NO > 0 THEN "]
+
+
+def midrecord_input(rng):
+    """inputs whose ERROR is raised while a row / a print block / a dump is being written: BASIC run-time errors in USER_PUNCH, USER_PRINT,
+    -calculate_values programs and RATES evaluated at punch time; during reaction steps, TRANSPORT/ADVECTION cells, a later simulation"""
+    err = rng.choice(CONDITIONS) + rng.choice(RUNTIME_ERRORS)
+    n = rng.choice([1, 1, 1, 2, 3])
+    where = rng.choice(["user_punch", "user_punch", "user_punch", "calc_values", "user_print", "rates_in_punch", "user_punch_two_numbers"])
+    sel = f"SELECTED_OUTPUT {n}\n -reset false\n -pH true\n -totals Na Cl\n" + (" -high_precision true\n" if rng.random() < 0.3 else "")
+    prog = ""
+    if where == "user_punch":
+        prog = sel + f"USER_PUNCH {n}\n -headings a b\n 10 PUNCH 1\n 20 {err}\n 30 PUNCH 2\n"
+    elif where == "user_punch_two_numbers":
+        m = n + 1
+        prog = sel + f"USER_PUNCH {n}\n -headings a\n 10 PUNCH 1\nSELECTED_OUTPUT {m}\n -reset false\n -pe true\nUSER_PUNCH {m}\n -headings b\n 10 {err}\n"
+    elif where == "calc_values":
+        prog = sel + f" -calculate_values cv\nCALCULATE_VALUES\ncv\n -start\n 10 {err.replace('PUNCH', 'x =')}\n 20 SAVE 1\n -end\n"
+    elif where == "user_print":
+        prog = sel + f"USER_PRINT\n 10 PRINT \"a\"\n 20 {err.replace('PUNCH', 'PRINT')}\n"
+    else:
+        prog = sel + f" -kinetic_reactants R1\nUSER_PUNCH {n}\n -headings k\n 10 PUNCH KIN(\"R1\")\nRATES\nR1\n -start\n 10 {err.replace('PUNCH', 'x =')}\n 20 SAVE 1e-6 * TIME\n -end\n" \
+               "KINETICS 1\n R1\n -formula NaCl 1\n -m0 1\n -steps 10 in 2\n"
+    ctx = rng.choice(["initial", "reaction", "reaction", "transport", "advection", "second-sim", "dump", "mix"])
+    sol = "SOLUTION 1\n pH 7\n Na 1\n Cl 1\n Ca 1\n C 2\n"
+    if ctx == "initial":
+        t = sol + prog + "END\n"
+    elif ctx == "reaction":
+        t = sol + prog + "REACTION 1\n NaCl 1\n 0.1 0.2 0.3\nEND\n"
+    elif ctx == "transport":
+        t = "SOLUTION 0-3\n Na 1\n Cl 1\nEND\n" + prog + f"TRANSPORT\n -cells 3\n -shifts 2\n -punch_cells {rng.choice(['1-3', '2', '1 3'])}\n -punch_frequency {rng.choice([1, 2])}\nEND\n"
+    elif ctx == "advection":
+        t = "SOLUTION 0-3\n Na 1\n Cl 1\nEND\n" + prog + "ADVECTION\n -cells 3\n -shifts 2\n -punch_cells 1-3\nEND\n"
+    elif ctx == "second-sim":
+        t = sol + sel + "END\n" + prog.replace(sel, "") + "USE solution 1\nREACTION 1\n NaCl 1\n 1 mmol\nEND\n" + sol.replace("SOLUTION 1", "SOLUTION 2") + "END\n"
+    elif ctx == "dump":
+        t = sol + prog + f"DUMP\n -all\n -file dump_{n}.out\nSAVE solution 2\nEND\nDUMP\n -solution 2\nEND\n"
+    else:
+        t = sol + "SOLUTION 2\n K 1\n Cl 1\nEND\n" + prog + "MIX 1\n 1 0.5\n 2 0.5\nEND\n"
+    if rng.random() < 0.15:
+        t, _ = mutate(rng, b(t), 1)
+    return b(t), f"{where}/{ctx}"
